@@ -52,6 +52,8 @@ def detect_features(wt):
         f.append("allocator-api2")
     if "verif_hooks" in src:
         f.append("verif_hooks")
+    if "std" not in f and ("--features std" in notes or "features `std`" in notes or "`std` feature" in notes):
+        f.append("std")
     return ",".join(f)
 
 
